@@ -77,7 +77,7 @@ CLAIMED = {
              'x 48 spellings, 4356 two-block trees x 6 spellings: fences, headings, breaks, tight lists) that the pipeline model renders the spelled text to exactly '
              'the HTML written from the tree; the full grammar (inlines, ordered/loose lists, tables, HTML blocks, definitions, lazy lines, indents, depth 4) is decided '
              'on the implementation by a tree-first generator with an independent HTML writer and CommonMark\'s normalisation; X-doc ties the model to the implementation.',
-        note='PARTIAL beyond the fragment (bounded in the kernel, sampled on the implementation). Trusted: Coq kernel incl. vm_compute, extraction, translators, pipeline model (correspondence-checked), '
+        note='The character scanners of the inline-link parser (shift_whitespace, match_link_dest, match_link_title) are translated loop by loop from core_tokens.py on every run and the model\'s scanners proved equal to them (C03_link_scanners_are_the_source). PARTIAL beyond the fragment (bounded in the kernel, sampled on the implementation). Trusted: Coq kernel incl. vm_compute, extraction, translators, pipeline model (correspondence-checked), '
              'harness/treegen.py and htmlnorm.py (the oracle). Three genuine defects repaired (fix: 3e6741d, 952f88d, 8741346); two recorded findings.',
         technique='Coq proof (induction on nesting depth composing the C04/C05/C14 laws) + bounded kernel sweep against a Coq specification of spelling + extracted-model correspondence + generator oracle',
         design='5/C03'),
